@@ -373,7 +373,7 @@ func startProcCluster(env *fw.Env, n int, perShard int64, plans map[string]model
 		dir := filepath.Join(env.Dir, fmt.Sprintf("node%d", i))
 		spec := httpx.NodeSpec{HTTPPort: ports[n+i], Plans: plans, Cluster: cluster.ClusterNodeConfig{
 			RootDir: dir, RpcHost: "localhost", RpcPort: ports[i], RpcTimeout: 5, RpcRetries: 1, Servers: servers,
-			ShardManager: cluster.ShardManagerConfig{RootDir: dir, ShardTimeout: 300, MaxCacheSize: -1},
+			ShardManager: cluster.ShardManagerConfig{RootDir: dir, ShardTimeout: 300, MaxCacheSize: []int64{-1, 30000, 1 << 30}[(int(perShard)+n)%3]},
 			MaxShardSize: 1 << 31, MaxShardPointCount: perShard, MaxSearchLimit: 75}}
 		nodes[i] = httpx.NewProcNode(env.Exe, env.Dir, fmt.Sprintf("node%d", i), spec)
 		nodes[i].Env = extraEnv
